@@ -171,6 +171,11 @@ pub fn c17(ctx: &mut Ctx) {
         }
     }
 
+    // ---- H5': log lines that could not be written must not change what later logs do ------------
+    if !small {
+        unwritable_stdout_class(ctx, "c17.effects");
+    }
+
     // ---- H1': adjacent calls on operands that collide under a weak key ---------------------
     // State keyed on something coarse (a 32-bit hash of a string, its length, its ends) changes a
     // result only when two *different* operands with the same key follow each other on one thread.
@@ -1168,4 +1173,42 @@ pub fn coldstart(ctx: &mut Ctx, monitor: &str, judged_ops: &[&str], threads: usi
         }
     }
     ctx.cell("cold-start");
+}
+
+/// `log` while the caller's standard output refuses the write (`/dev/full`, then a pipe without a
+/// reader): a value or an error, never a panic (C01); and nothing of it may linger - the next `log`
+/// prints its one line where it belongs (C17: a write error must not change what later calls do).
+pub fn unwritable_stdout_class(ctx: &mut Ctx, monitor: &str) {
+    if observe::capture_active() {
+        let rules = vec![
+            json!({"log": 1}), json!({"log": ["x"]}), json!({"log": {"var": "a"}}), json!({"cat": [{"log": "a"}, {"log": "b"}]}), json!({"if": [{"log": true}, {"log": "t"}, "e"]}),
+            json!({"map": [[1, 2, 3], {"log": {"var": ""}}]}), json!({"reduce": [[1, 2], {"log": {"+": [{"var": "current"}, {"var": "accumulator"}]}}, 0]}), json!({"log": "\u{e9}\u{1F600}"}),
+            json!({"log": {"/": [1]}}), json!({"+": [{"log": 1}, {"log": "x"}]}), json!({"log": "x".repeat(20_000)}),
+        ];
+        for closed in [false, true] {
+            for r in rules.iter() {
+                let d = json!({"a": [1, 2]});
+                if let Some(out) = observe::call_with_unwritable_stdout(r, &d, closed) {
+                    ctx.evaluations += 1;
+                    ctx.mon(monitor).observed += 1;
+                    ctx.mon(monitor).judged += 1;
+                    match &out {
+                        Outcome::Panic(p) => {
+                            let site = p.rsplit(" @ ").next().unwrap_or("").to_string();
+                            let msg: String = p.split(" @ ").next().unwrap_or("").chars().take(60).collect();
+                            ctx.violation_x(monitor, &format!("panic:log:{}:{}", msg, site), r, &d, json!("a value or an error"), out.brief(), "evaluation panicked when the line of a `log` could not be written to standard output", json!({"stdout": if closed { "a pipe without a reader" } else { "/dev/full" }}));
+                            ctx.cell("unwritable-stdout:panic");
+                        }
+                        Outcome::Ok(_) => ctx.cell("unwritable-stdout:value"),
+                        Outcome::Err(_) => ctx.cell("unwritable-stdout:error"),
+                    }
+                }
+            }
+        }
+        // nothing of this may linger: the next call prints its line where it belongs
+        let obs = ctx.observe(&json!({"log": "after-unwritable"}), &Value::Null);
+        if obs.logs != vec!["\"after-unwritable\"".to_string()] || !matches!(obs.out, Outcome::Ok(_)) {
+            ctx.violation(monitor, "log-after-unwritable-stdout", &json!({"log": "after-unwritable"}), &Value::Null, json!({"lines": ["\"after-unwritable\""]}), json!({"out": obs.out.brief(), "lines": obs.logs}), "after calls whose log lines could not be written, a later call does not behave normally");
+        }
+    }
 }
